@@ -233,6 +233,14 @@ def abstract(s):
 # ------------------------------------------------------------------------------------------------------------------
 def inv(s):
     """returns None if the invariant holds, else the name of the broken clause"""
+    try:
+        return _inv(s)
+    except (IndexError, KeyError) as e:
+        # a worker index outside its allocation matrix / on a row the clauses cannot read: not a state of the protocol
+        return "1: worker position is not a row of its allocation matrix (%s)" % type(e).__name__
+
+
+def _inv(s):
     D = s.D
     d, J = D.current_step, D.number_of_steps
     if D.currently_completed != len(D.workers_completed_current_step):
@@ -268,6 +276,8 @@ def inv(s):
             return "2: more than one CompleteCurrentTask per element in flight"
         if ahead and prev_kind is None:
             return "2: CompleteCurrentTask of a previous element without completed-by"
+        if not w.client_allocations.tasks(w.current_task_index):
+            return "1: worker rests on a filler row (no client of it has anything there); rows without tasks are skipped, never waited on"
         if w.at_joinpoint():
             q = w.client_allocations.tasks(w.current_task_index)[0].task.id
             if w.executor_future is not None or w.cancel.is_set():
